@@ -7,6 +7,9 @@
 //	index   RemoteHTTPIndex <-> httptest <-> NewHTTPIndexHandler <-> LocalIndexStore, GET/HEAD/PUT (index_test.go)
 //	script  RemoteHTTP / RemoteHTTPIndex against a scripted server that answers attempt k with the
 //	        k-th generated response; judged by a reference model of the retry policy      (script_test.go)
+//	sshpool one desync.RemoteSSH store with a pool of n in-process casync sessions: failing answers
+//	        (missing, invalid, garbage, abort, dead peer) interleaved with successful ones, sequentially
+//	        and from several goroutines, further requests, Close                            (pool_test.go)
 //	proto   desync.Protocol clients against desync.NewProtocolServer over io.Pipe pairs; returned
 //	        chunks are held and consumed later through their storage form   (proto_test.go, held_test.go)
 package c14
@@ -24,12 +27,13 @@ import (
 
 // Case is the replay file. Exactly one of the four sub-cases is used, selected by Mode.
 type Case struct {
-	Mode   string      `json:"mode"` // matrix | index | script | proto
+	Mode   string      `json:"mode"` // matrix | index | script | proto | ssh | sshpool
 	Matrix *MatrixCase `json:"matrix,omitempty"`
 	Index  *IndexCase  `json:"index,omitempty"`
 	Script *ScriptCase `json:"script,omitempty"`
 	Proto  *ProtoCase  `json:"proto,omitempty"`
 	SSH    *SSHCase    `json:"ssh,omitempty"`
+	Pool   *PoolCase   `json:"pool,omitempty"`
 }
 
 func genCase(t *rapid.T) Case {
@@ -44,6 +48,9 @@ func genCase(t *rapid.T) Case {
 	case m < 10:
 		ic := genIndex(t)
 		return Case{Mode: "index", Index: &ic}
+	case m < 11:
+		pc := genPool(t)
+		return Case{Mode: "sshpool", Pool: &pc}
 	case m < 17:
 		sc := genScript(t)
 		return Case{Mode: "script", Script: &sc}
@@ -65,6 +72,8 @@ func run(c Case) (o hx.Outcome) {
 		o = runProto(*c.Proto)
 	case c.Mode == "ssh" && c.SSH != nil:
 		o = runSSH(*c.SSH)
+	case c.Mode == "sshpool" && c.Pool != nil:
+		o = runPool(*c.Pool)
 	default: // a hand-edited replay file without a sub-case: nothing to run
 		o.Desc = map[string]any{"mode": c.Mode, "empty": true}
 		return o
@@ -83,8 +92,9 @@ var spec = &hx.Spec[Case]{
 		"(script) method x ErrorRetry 0..4 x per-attempt server responses (200, 404, 400/401/403, 500/502/503, connection close/RST, truncated body) of length <= 6, all scripts of length <= 4 x retry 0..3 enumerated for GetChunk and HasChunk; " +
 		"(proto) 1..3 casync protocol sessions over pipes on one store with present/missing/corrupt chunks, repeated IDs, large-then-smaller-or-equal reply orders and a closed or cut connection; " +
 		"every chunk a session returned is held and consumed later (at generated points and after the history) through a compressed and an uncompressed HTTP chunk server, a cache writing to a compressed LocalStore and an uncompressed LocalStore. " +
+		"(sshpool) one RemoteSSH store over a pool of n in 1..3 in-process casync sessions (stand-in peer that keeps the session open after MISSING): history of <= 12 GetChunk/HasChunk for chunks answered present/missing/invalid/garbage/abort/dead-peer, issued sequentially or by 2..4 goroutines, then 1..4 further sequential requests and Close; fixed cases n x failing answer x {sequential, 3 goroutines} with n+1 failures before a present chunk. " +
 		"non-trivial = matrix case in which compression settings differ between at least two of the three hops, script with >= 1 transient failure followed by a terminal response within the attempts made, " +
-		"index history touching a present and an absent name, protocol history with a present and a non-present request, a broken connection, or a held chunk followed on its session by a different reply that is not larger; distinct by configuration + history shape",
+		"index history touching a present and an absent name, protocol history with a present and a non-present request, a broken connection, or a held chunk followed on its session by a different reply that is not larger, ssh pool history with more failing answers than sessions; distinct by configuration + history shape",
 	Assumptions: []string{
 		"plain HTTP/1.1 on loopback through net/http/httptest; TLS, HTTP/2, proxies and real ssh are not in the loop",
 		"scripted server disables keep-alive so that every desync attempt is exactly one request on a fresh connection (net/http's own transparent retry of idempotent requests on reused connections is outside the policy under test)",
@@ -93,6 +103,7 @@ var spec = &hx.Spec[Case]{
 		"upstream back door reads/writes chunk files with klauspost zstd directly and chunk IDs with crypto/sha512 directly; index bytes by the independent caibx codec in internal/ref",
 		"casync protocol: a server that ends the session after answering MISSING or after a store failure is accepted (DESIGN section 6, judged outside the statement); the harness then closes the server's pipe ends like a process exit would",
 		"zero-length chunks are not generated (no chunker produces them)",
+		"ssh pool mode: the RemoteSSH store is assembled in process (its pool channel filled with sessions over io.Pipe pairs to a hand-written casync stand-in; unexported fields set by reflection) instead of through ssh children; 'every request returns' is judged as blocked when the pool is empty while nothing is in flight (proven, confirmed for 0.2 s) or after 3 s worth of 2 ms polls without a returned request or a message at any peer; blocked callers are then released by feeding dead sessions into the pool",
 		"an upstream object that cannot be decoded is a failure of the hop that has to decode it: a chunk server that converts between formats must answer with an error (never 200, never 404) and GetChunk must fail even for a non-verifying client; where the server passes the stored bytes through unexamined and every hop was told not to verify, nothing is demanded; with a verifying hop the outcome must be an error (not data, not missing)",
 		"chunk size is not bounded by the statement ('all chunks'): chunks of up to 1 MiB (indexes made with a larger maximum than the default 256 KiB) and transfer forms larger than the chunk (zstd framing of incompressible data) are valid uploads and downloads",
 		"a chunk handed out by a transport stays valid for its holder while the transport is used further (Store.GetChunk has no lifetime restriction: chunk servers, caches and the assembler all keep chunks while other requests run on the same store); held chunks are read, never modified, by the check",
@@ -116,6 +127,9 @@ var spec = &hx.Spec[Case]{
 		"script:kind:reset", "script:kind:short", "script:kind:5xx",
 		"script:m:getchunk", "script:m:haschunk", "script:m:storechunk", "script:m:getindex", "script:m:storeindex",
 		"proto:present", "proto:missing", "proto:corrupt", "proto:break:close", "proto:break:cut", "proto:store:mem", "proto:store:local", "proto:store:local-unc",
+		"mode:sshpool", "ssh-pool:n=1", "ssh-pool:n=2", "ssh-pool:n=3", "ssh-pool:failures>pool-size", "ssh-pool:ok-after-failures>pool-size", "ssh-pool:sequential", "ssh-pool:concurrent",
+		"ssh-pool:further-request", "ssh-pool:close", "ssh-pool:request-on-dead-session",
+		"ssh-pool:answer:present", "ssh-pool:answer:missing", "ssh-pool:answer:invalid", "ssh-pool:answer:garbage", "ssh-pool:answer:abort", "ssh-pool:answer:die",
 		"proto:sessions:1", "proto:sessions:2+", "proto:held-consumed-later", "proto:large-then-small", "proto:held-repeat-id", "proto:held-on-several-sessions",
 		"proto:held-then-session-end", "proto:check:intermediate",
 	},
